@@ -40,10 +40,11 @@ def check_case(case):
     def v(key, what, **kw):
         out.append({"key": key, "what": what, "case": dict(case, **kw)})
     try:
-        o = core.sp(seq)
-        k = o.get_kappa()
-        d = o.get_delta()
-        m = o.get_deltaMax()
+        with core.istate(seq):
+            o = core.sp(seq)
+            k = o.get_kappa()
+            d = o.get_delta()
+            m = o.get_deltaMax()
     except Exception as e:  # noqa
         v("exception", "kappa/delta/deltaMax raised %r for %s" % (e, seq))
         return out, None
